@@ -225,9 +225,11 @@ def verboseOp (j : Json) : R Json := do
       | t => do pure (Except.ok (← jStr t)))
     return (tok, res))
   let fmt : Int → Except PyErr String := fun v => (table.lookup v).getD (.error .AssertionError)
+  let withCols (names : List String) (fields : List Field) (r : Json) : Json :=
+    r.mergeObj (Json.mkObj [("names", .arr (names.map Json.str).toArray), ("fields", .arr (fields.map (fun f => Json.str f.text)).toArray)])
   match cb with
-  | .metric c => return effectsOut iOut (c.runV verbose fmt c.init evs)
-  | .observable c => return effectsOut (pairsOut iOut) (c.runV verbose fmt c.init evs)
+  | .metric c => return withCols c.names c.csvFields (effectsOut iOut (c.runV verbose fmt c.init evs))
+  | .observable c => return withCols c.names c.csvFields (effectsOut (pairsOut iOut) (c.runV verbose fmt c.init evs))
   | _ => .error "c17.verbose: metric or observable expected"
 
 def handle (op : String) (j : Json) : Option (R Json) :=
